@@ -54,6 +54,18 @@ type LoopForm struct {
 // The polyizer's environment is extended with the induction variables for as
 // long as the form is in use (call Done to restore it).
 func (g *IG) loopFormAt(z *Polyizer, b *ssa.BasicBlock) (*LoopForm, bool) {
+	// a block of a spliced helper that is not in a loop of its own lies in the
+	// loops of the helper's call site
+	for i := 0; i < 4 && b != nil && g.M != nil && b.Parent() != g.Fn; i++ {
+		if hh, _ := loopOf(b); hh != nil {
+			break
+		}
+		site := g.M.helperSite[b.Parent()]
+		if site == nil {
+			break
+		}
+		b = site.Block()
+	}
 	h, body := loopOf(b)
 	if h == nil {
 		return nil, false
